@@ -41,6 +41,9 @@ def items(tier, seed):
         for cap, H in cfgs:
             out.append(dict(name=f"bfs-{cls}-{cap}-{H}", kind="bfs", cls=cls, cap=cap, H=H, seed=seed))
     for cls in ("SubtrajectoryReplayBuffer", "SubtrajectoryReplayBufferPER"):
+        for cap, H in ([(4, 2), (5, 3)] if tier == "quick" else [(3, 1), (4, 2), (5, 3), (6, 3)]):
+            out.append(dict(name=f"bfs-MultiTask({cls})-{cap}-{H}", kind="bfs", cls=cls, cap=cap, H=H, seed=seed, mt=True))
+    for cls in ("SubtrajectoryReplayBuffer", "SubtrajectoryReplayBufferPER"):
         for cap, H in cfgs:
             if cap > 6 or H > 3:
                 continue
@@ -57,7 +60,13 @@ def make(cfg, col):
 
     bd = B()
     bd.cfg, bd.col = cfg, col
-    bd.buf = getattr(rb, cfg["cls"])(cfg["cap"], horizon=cfg["H"])
+    if cfg.get("mt"):
+        # per-task buffers are made by the wrapper from the template; all traffic goes through the wrapper, task 1
+        bd.wrapper = rb.MultiTaskReplayBuffer(getattr(rb, cfg["cls"])(cfg["cap"], horizon=cfg["H"]), 2)
+        bd.wrapper.select_task(1)
+        bd.buf = bd.wrapper.buffers[1]
+    else:
+        bd.buf = getattr(rb, cfg["cls"])(cfg["cap"], horizon=cfg["H"])
     bd.steps = []  # reference: per global step g -> (ep, k, kind)
     bd.ep, bd.k = 0, 0
     bd.hist = ""
@@ -69,7 +78,7 @@ def apply(bd, op):
     ep, k = bd.ep, bd.k
     off = bd.cfg["seed"] % 5
     first = bd.buf.current_len == 0
-    bd.buf.add_sample(
+    (bd.wrapper if bd.cfg.get("mt") else bd.buf).add_sample(
         observation=np.array([ep, k, g + off], dtype=float),
         action=np.array([g + off], dtype=float),
         reward=float(g + 1 + off),
@@ -154,6 +163,9 @@ class StubRng:
     def uniform(self, low=0.0, high=1.0, size=None):
         n = size if isinstance(size, int) else int(np.prod(size))
         return (np.arange(n) % self.grid + 0.5) / self.grid
+
+    def choice(self, a, size=None):
+        return np.asarray(list(a))[:1]
 
 
 def judge(bd, hist, h, view, batch, col, entry):
@@ -263,8 +275,12 @@ def on_state(bd, hist_ops, col=None):
     n_adm = admissible(bd)
     for h in range(1, cfg["H"] + 1):
         bsz = n_adm if cfg["cls"].endswith("PER") is False else 64
-        full = buf.sample_batch(bsz, h, True, StubRng())
-        reduced = buf.sample_batch(bsz, h, False, StubRng())
+        if cfg.get("mt"):
+            full = bd.wrapper.sample_batch(bsz, h, True, rng=StubRng())
+            reduced = bd.wrapper.sample_batch(bsz, h, False, rng=StubRng())
+        else:
+            full = buf.sample_batch(bsz, h, True, StubRng())
+            reduced = buf.sample_batch(bsz, h, False, StubRng())
         got = judge(bd, hist, h, "intermediate", full, col, entry)
         col.outcome("distinct_starts_sampled", got)
         col.outcome("admissible_starts", n_adm)
